@@ -169,6 +169,11 @@ Proof.
   - exists [event k n v]. simpl. split; [reflexivity|lia].
 Qed.
 
+Ltac take_log L c2 n :=
+  cbv zeta;
+  match goal with |- context [log_call ?cc ?k ?nm ?v] =>
+    pose proof (ext_log_call cc k nm v) as L; destruct (log_call cc k nm v) as [c2 n] end.
+
 Section WITH_U.
 Variable U : ufuns.
 
@@ -176,8 +181,7 @@ Lemma ext_call_cond c name al : ext c (fst (call_cond U c name al)).
 Proof.
   unfold call_cond. destruct (u_cond U name); [|apply ext_refl].
   pose proof (q_collect_args al c []) as Q. destruct (collect_args c al []) as [c1 la]. cbn [fst] in Q.
-  pose proof (ext_log_call c1 (bs "cond") name la) as L.
-  destruct (log_call c1 (bs "cond") name la) as [c2 n]. cbn [fst] in *.
+  take_log L c2 n. cbn [fst] in *.
   destruct (p n la) as [b e]. cbn [fst].
   eapply ext_trans; [apply ext_of_quiet; exact Q|].
   destruct e; [eapply ext_trans; [exact L|apply ext_of_quiet, q_w_cerr]|exact L].
@@ -205,8 +209,7 @@ Proof.
   - apply G. eapply ext_trans; [exact B|apply ext_of_quiet, q_mod_ifthenelse].
   - apply (G (w_bufX c1 raw, None, None)). exact B.
   - destruct (u_mod U (m_id m)) as [f|].
-    + pose proof (ext_log_call (w_bufX c1 raw) (bs "mod") (m_id m) (deref (w_bufX c1 raw) raw :: la)) as L.
-      destruct (log_call (w_bufX c1 raw) (bs "mod") (m_id m) (deref (w_bufX c1 raw) raw :: la)) as [c2 n].
+    + take_log L c2 n.
       cbn [fst] in L. pose proof (ext_trans _ _ _ B L) as B2.
       destruct (f n (deref c2 raw) la) as [v|x];
         [apply (G (c2, Some v, None))|apply (G (c2, None, Some x))]; exact B2.
@@ -493,8 +496,7 @@ Proof.
   { destruct (condHlp r) as [|h hs]; [apply ext_refl|].
     destruct (u_condok U (h :: hs)) as [fn|]; [|apply ext_refl].
     pose proof (q_collect_args (condHlpArg r) c []) as Q. destruct (collect_args c (condHlpArg r) []) as [c1 la]. cbn [fst] in Q.
-    pose proof (ext_log_call c1 (bs "condok") (h :: hs) la) as L.
-    destruct (log_call c1 (bs "condok") (h :: hs) la) as [c2 n]. cbn [fst] in L.
+    take_log L c2 n. cbn [fst] in L.
     pose proof (ext_trans _ _ _ (ext_of_quiet _ _ Q) L) as E2.
     destruct (fn n la) as [v okv].
     assert (E3 : ext c (w_bufBl (w_bufX c2 v) okv)).
@@ -545,8 +547,7 @@ Proof.
   destruct (callback r).
   { pose proof (q_collect_args (args r) c []) as Q. destruct (collect_args c (args r) []) as [c1 la]. cbn [fst] in Q.
     destruct (u_cb U (src r)) as [fn|]; [|apply ext_of_quiet; exact Q].
-    pose proof (ext_log_call c1 (bs "cb") (src r) la) as L.
-    destruct (log_call c1 (bs "cb") (src r) la) as [c2 n]. cbn [fst] in *.
+    take_log L c2 n. cbn [fst] in *.
     eapply ext_trans; [apply ext_of_quiet; exact Q|exact L]. }
   destruct (getter r).
   { pose proof (q_collect_args (args r) c []) as Q. destruct (collect_args c (args r) []) as [c1 la]. cbn [fst] in Q.
@@ -556,7 +557,7 @@ Proof.
        (match builtin_getter (src r) with
         | Some g => run_bget (w_bufX c1 VNil) g la
         | None => match u_get U (src r) with
-                  | Some fn => let '(c0, n) := log_call (w_bufX c1 VNil) (bs "get") (src r) la in
+                  | Some fn => let '(c0, n) := log_call (w_bufX c1 VNil) (kind_of (bs "get") (match fn (ncalls (w_bufX c1 VNil)) la with inr _ => true | inl _ => false end)) (src r) la in
                                match fn n la with inl v => (c0, Some v, None) | inr x => (c0, None, Some x) end
                   | None => (w_bufX c1 VNil, None, Some EUnsupported)
                   end
@@ -564,8 +565,7 @@ Proof.
     { destruct (builtin_getter (src r)) as [g|].
       - eapply ext_trans; [exact B|apply ext_of_quiet, q_run_bget].
       - destruct (u_get U (src r)) as [fn|]; [|exact B].
-        pose proof (ext_log_call (w_bufX c1 VNil) (bs "get") (src r) la) as L.
-        destruct (log_call (w_bufX c1 VNil) (bs "get") (src r) la) as [c2 n]. cbn [fst] in L.
+        take_log L c2 n. cbn [fst] in L.
         destruct (fn n la); cbn [fst]; eapply ext_trans; eassumption. }
     revert V.
     match goal with |- ext c (fst (fst ?X)) -> _ => destruct X as [[c2 ra] ea] end.
